@@ -504,7 +504,7 @@ def parsePelFromPLID(path: str, config: Config):
             try:
                 eid, summary = parsePELSummary(stream, config)
                 if eid :
-                    if plid in summary['PLID']:
+                    if plid == summary['PLID'][2:].zfill(len(plid)):
                         if config.hex:
                             printPELInHexFormat(data)
                         else:
